@@ -667,16 +667,41 @@ func (f *Field) keys() bool {
 	return f.options.Keys
 }
 
-// bsiGroup returns a bsiGroup by name.
+// bsiGroup returns a bsiGroup by name. The result is a copy made under the
+// field lock: the bit depth of the group grows while requests are served
+// (growBitDepth), and a request works with the depth it read here.
 func (f *Field) bsiGroup(name string) *bsiGroup {
 	f.mu.RLock()
 	defer f.mu.RUnlock()
 	for _, bsig := range f.bsiGroups {
 		if bsig.Name == name {
-			return bsig
+			cp := *bsig
+			return &cp
 		}
 	}
 	return nil
+}
+
+// growBitDepth raises the bit depth of a bsiGroup to at least bitDepth and
+// returns the depth now in force. The depth never shrinks: of two concurrent
+// writers the one needing fewer bits must not undo the other's increase.
+func (f *Field) growBitDepth(name string, bitDepth uint) (uint, error) {
+	f.mu.Lock()
+	defer f.mu.Unlock()
+	for _, bsig := range f.bsiGroups {
+		if bsig.Name != name {
+			continue
+		}
+		if bitDepth > bsig.BitDepth {
+			bsig.BitDepth = bitDepth
+			f.options.BitDepth = bitDepth
+			if err := f.saveMeta(); err != nil {
+				return bsig.BitDepth, err
+			}
+		}
+		return bsig.BitDepth, nil
+	}
+	return 0, ErrBSIGroupNotFound
 }
 
 // hasBSIGroup returns true if a bsiGroup exists on the field.
@@ -1047,22 +1072,15 @@ func (f *Field) SetValue(columnID uint64, value int64) (changed bool, err error)
 
 	// Increase bit depth value if the unsigned value is greater.
 	if requiredBitDepth > bsig.BitDepth {
-		if err := func() error {
-			f.mu.Lock()
-			defer f.mu.Unlock()
-
-			uvalue := uint64(baseValue)
-			if value < 0 {
-				uvalue = uint64(-baseValue)
-			}
-			bitDepth := bitDepth(uvalue)
-
-			bsig.BitDepth = bitDepth
-			f.options.BitDepth = bitDepth
-			return f.saveMeta()
-		}(); err != nil {
+		uvalue := uint64(baseValue)
+		if value < 0 {
+			uvalue = uint64(-baseValue)
+		}
+		depth, err := f.growBitDepth(bsig.Name, bitDepth(uvalue))
+		if err != nil {
 			return false, errors.Wrap(err, "increasing bsi max")
 		}
+		bsig.BitDepth = depth
 	}
 
 	// Fetch target view.
@@ -1276,15 +1294,11 @@ func (f *Field) importValue(columnIDs []uint64, values []int64, options *ImportO
 
 	// Increase bit depth if required.
 	if requiredDepth > bsig.BitDepth {
-		if err := func() error {
-			f.mu.Lock()
-			defer f.mu.Unlock()
-			bsig.BitDepth = requiredDepth
-			f.options.BitDepth = requiredDepth
-			return f.saveMeta()
-		}(); err != nil {
+		depth, err := f.growBitDepth(bsig.Name, requiredDepth)
+		if err != nil {
 			return errors.Wrap(err, "increasing bsi bit depth")
 		}
+		bsig.BitDepth = depth
 	}
 
 	// Split import data by fragment.
